@@ -7,5 +7,7 @@ PROP = dict(
     rule='case = family A (client/server version subsets x offered suites x disabled suites x EMS modes x identity), B (fallback SCSV: client version x server version subset), C (rewrite target x field op x position); non-trivial = >= 3 versions across both sets or >= 2 offered suites (A), every B case, every applicable rewrite (C); distinct by the abstracted configuration tuple / rewritten field',
     assumptions=['default version priority only'],
     targets=[dict(name='c07_negotiate', src=['props/C07/negotiate.cc', 'harness/wraps.c', 'harness/shim.c'], wraps=WRAPS, env={'VERIF_DIR': '/verif'},
-                  quick=dict(cases=3000, secs=80), thorough=dict(cases=150000, secs=1200))],
+                  quick=dict(cases=3000, secs=80), thorough=dict(cases=150000, secs=1200)),
+             dict(name='c07_malicious_server', src=['props/C07/malicious_server.cc', 'harness/puppet12.cc', 'harness/wraps.c'], libs=['-lcrypto'], wraps=WRAPS, env={'VERIF_DIR': '/verif'},
+                  quick=dict(cases=1500, secs=60), thorough=dict(cases=60000, secs=600))],
 )
